@@ -177,6 +177,33 @@ def execute(lab, obs, s0, until=None):
     return p
 
 
+def with_feedback(obs, src, fb, kinds=None):
+    """The consumer pushes into the hot source `src` from inside its own on_next: after it has received the k-th element
+    (k in fb) it synchronously makes the source emit element 1000+k (or, with kinds[k] == "E", the error Tagged("fb")).
+    The push is re-entrant for the operator under test (it happens inside the operator's call of downstream on_next)."""
+    from reactivex import Observable
+
+    from .values import Tagged
+
+    def subscribe(observer, scheduler=None):
+        seen = [0]
+
+        def on_next(v):
+            observer.on_next(v)
+            k = seen[0]
+            seen[0] += 1
+            if k in fb:
+                for o in list(src.observers):
+                    if kinds and kinds.get(k) == "E":
+                        o.on_error(Tagged("fb"))
+                    else:
+                        o.on_next(1000 + k)
+
+        return obs.subscribe(on_next, observer.on_error, observer.on_completed, scheduler=scheduler)
+
+    return Observable(subscribe)
+
+
 def sub_ticks(case):
     """Subscribe ticks of the case: the first subscription and, optionally, a second subscription of the *same* observable."""
     return [case["s0"]] + ([case["s1"]] if case.get("s1") is not None else [])
